@@ -283,7 +283,13 @@ struct Sys {
         return true;
     }
 
+    // a C++ exception escaping from the library is a finding of the operation that raised it, not a harness crash
     static void apply(Inst &I, int op, bool check)
+    {
+        try { apply_op(I, op, check); }
+        catch(const std::exception &e) { bad(I, check, "exception|" + opname(op).substr(0, opname(op).find('(')) + "|" + e.what(), std::string("the library threw ") + e.what()); }
+    }
+    static void apply_op(Inst &I, int op, bool check)
     {
         const size_t n0 = I.n2r.size();
         if(op < OP_UNMAP) {
@@ -462,7 +468,7 @@ int main(int argc, char **argv)
     vp::init(argc, argv, "C20");
     const bool T = vp::thorough();
     bfs::Engine<Sys> E;
-    E.max_depth = T ? 11 : 8;
+    E.max_depth = T ? 12 : 8;
     g_naddr = 3;
     if(const char *d = getenv("C20_DEPTH")) { E.max_depth = atoi(d); vp::cap("development override C20_DEPTH"); }
     if(const char *d = getenv("C20_NADDR")) { g_naddr = atoi(d); vp::cap("development override C20_NADDR"); }
